@@ -126,6 +126,7 @@ var vLintMessages = []struct{ sub, class string }{
 	{"new version of combinator can't have less fields", "less-fields"},
 	{"new version of combinator can't have less template arguments", "less-targs"},
 	{"this reference changed to different source", "ref-changed"},
+	{"arguments were removed in compare with original source", "ref-changed"}, // F3 repair (commit 85427fb6)
 	{"arguments change its types or values", "arg-changed"},
 	{"you can't add fieldmask to a field", "mask-added"},
 	{"you can't remove fieldmask to a field", "mask-removed"},
